@@ -49,3 +49,19 @@ class NamedPred:
 
     def __repr__(self):
         return f'NamedPred({self.sym!r}, {self.args!r})'
+
+
+# a Transform that takes one of its fields from a Mixin (functions defined in class bodies are pickled by qualified name)
+from connectome import Mixin, Transform  # noqa
+
+
+class TagMixin(Mixin):
+    def tag(image):
+        return sympool.s150(image)
+
+
+class Tagged(Transform, TagMixin):
+    __inherit__ = True
+
+    def other(image):
+        return sympool.s151(image)
